@@ -207,6 +207,129 @@ CLASS_TOTAL = Leg("c15.members", lambda rng, tier: _M.gen(rng, tier)[:1200] if t
                   spec_proj=members_alive, shrink=_M.shrink, nontrivial=_M.nontrivial, describe=_M.describe,
                   per_case_s=_M.per_case_s)
 
+# ---- deep nesting (findings C01-deep-nesting / C01-deep-nesting-time, OPEN): leg c01.deep
+# A case is `<construct> <depth> <route>` (harness/legs_c01.go builds the text and runs the route in a child process under
+# an address-space cap and a watchdog). The MODEL side is the constant ALIVE: the model parser returns for every input
+# (C01_parse_total) - the limit of the Go stack is outside the model (C01_parse_depth_unbounded_refuted) - and for short
+# texts the extracted parser is really run (oracle leg c01.deeptext). So a crash is always implementation != model.
+# The findings are identified by their concrete witnesses (`witnesses` of the open entries of known_findings/C01.json,
+# with the `expect`ed observable): exactly these cases may deviate; any OTHER case of the grid below that crashes or
+# hangs is a VIOLATION (a new construct, a shallower depth, another route). When a listed witness is ALIVE (repaired
+# code) the check prints `FINDING-GONE:` for the entry and does not fail: the entry is then to be closed by hand.
+REC = ["paren", "paren-open", "paren-name", "table", "table-open", "func", "funcstat", "do", "do-open", "while", "if", "else", "for",
+       "forin", "repeat", "unm", "not", "len", "concat", "pow", "index-nest", "call-nest", "callstat-nest", "field-nest"]
+CHAIN = ["add", "and", "call", "call-exp", "method", "strcall"]        # loops of the parser, left-deep AST
+SLOW_CHAIN = ["dot", "dot-assign", "index", "funcname"]                # ... whose analysis takes cubic time
+ANN = ["ann-paren", "ann-fun", "ann-funret", "ann-table", "ann-array", "ann-or"]
+REQS = ["hover", "define", "refs", "highlight", "complete", "sighelp", "docsym", "color"]
+
+
+def deep_grid(rng, tier):
+    """cases that must be ALIVE on the unchanged code AND on repaired code (a nesting limit only adds a syntax error)"""
+    out = []
+    for c in REC + CHAIN + ANN:
+        for r in ["parse", "scan", "open", "change"]:
+            out.append("%s %d %s" % (c, rng.choice([1, 7, 60, 150]), r))
+        if c != "index-nest":                           # cubic time like SLOW_CHAIN
+            out.append("%s %d %s" % (c, rng.choice([190, 199, 200, 201, 210, 999, 1000, 1001, 1500]), rng.choice(["parse", "scan", "change"])))
+    for c in SLOW_CHAIN:
+        for r in ["parse", "scan", "change"]:
+            out.append("%s %d %s" % (c, rng.choice([1, 7, 60, 150]), r))
+    for c in ANN:
+        out.append("%s %d ann" % (c, rng.choice([150, 1500, 20000])))
+    # deep but below every measured threshold (the smallest is call-nest: dies from 424000 levels in the parser)
+    for c in ["paren", "table", "call-nest", "concat", "unm", "field-nest", "call", "add", "method", "strcall"]:
+        out.append("%s %d parse" % (c, rng.choice([20000, 100000, 250000])))
+    for c in ["paren", "paren-name", "table", "call-nest", "concat", "unm", "field-nest", "do", "for", "add", "and", "call", "method"]:
+        out.append("%s %d %s" % (c, rng.choice([3000, 20000]), rng.choice(["scan", "open", "change"])))
+    # requests on / inside a deep expression
+    n = {"quick": 25, "thorough": 400, "search": 25}[tier]
+    for _ in range(n):
+        c = rng.choice(REC + CHAIN + ANN + SLOW_CHAIN)
+        # small where the analysis takes cubic / quadratic time (finding C01-deep-nesting-time)
+        d = rng.choice([5, 40, 150]) if c in SLOW_CHAIN + ["index-nest"] else rng.choice([5, 40, 150, 1500])
+        out.append("%s %d %s" % (c, d, rng.choice(REQS)))
+    # random mixtures of the nesting constructs
+    for _ in range(n):
+        out.append("mix-%d %d %s" % (rng.randrange(100000), rng.choice([3, 30, 150, 1200]), rng.choice(["parse", "scan", "change"] + REQS)))
+    return out
+
+
+DEEP = Leg("c01.deep", deep_grid, oracle="c01.deeptext", per_case_s=30.0, jobs=8,
+           nontrivial=lambda c: int(c.split(" ")[1]) >= 100,
+           describe=lambda c: " ".join(c.split(" ")[:3]))
+
+
+def deep_extra(r):
+    """runs leg c01.deep with its own decision (see above); fills r.leg_stats / r.known_lines / r.violations"""
+    import time, random, hashlib
+    t0 = time.time()
+    listed = {}
+    for f in r.findings:
+        if f.get("status") == "open" and f.get("witnesses"):
+            for w in f["witnesses"]:
+                listed[w] = f
+    rng = random.Random((r.seed * 1000003) ^ int(hashlib.sha256(b"c01.deep").hexdigest()[:8], 16))
+    if r.tier != "thorough":
+        # every witness costs a gigabyte of stack: the quick tier replays all witnesses through the server and the
+        # annotation parser and a third of the parser-only ones (which third depends on the seed); thorough replays all
+        po = [w for w in listed if w.endswith(" parse")]
+        for k, w in enumerate(po):
+            if (k + r.seed) % 3 != 0:
+                del listed[w]
+    cases = list(listed) + [c for c in deep_grid(rng, r.tier) if c not in listed]
+    # self-test of the decision: C01_DEEP_EXTRA="paren-name 1000000 parse;while 1700000 scan" adds cases to the grid
+    # (an unlisted case that crashes must give a VIOLATION)
+    import os
+    cases += [c.strip() for c in os.environ.get("C01_DEEP_EXTRA", "").split(";") if c.strip() and c.strip() not in listed]
+    rows = r.eval_cases(DEEP, cases)
+    st = {"leg": "c01.deep", "deciding": True, "cases": len(rows), "corpus": len(listed), "agree": 0, "known_class_instances": 0,
+          "corr_breaks": 0, "violations": 0, "unclassified": 0, "witnesses_gone": 0,
+          "rule": "listed witnesses of open findings may deviate as recorded; every other case must be ALIVE in implementation and model"}
+    hits, gone = {}, {}
+    for c, i, m, s, cls in rows:
+        key = " ".join(c.split(" ")[:3])
+        rec = {"leg": "c01.deep", "case": key, "impl": i, "model": m, "spec": s, "class": cls}
+        f = listed.get(key)
+        if f is not None and i == f["expect"] and m == "ALIVE":
+            st["agree"] += 1
+            st["known_class_instances"] += 1
+            hits[f["id"]] = hits.get(f["id"], 0) + 1
+        elif f is not None and i == "ALIVE" and m == "ALIVE":
+            st["witnesses_gone"] += 1
+            gone[f["id"]] = gone.get(f["id"], 0) + 1
+        elif i == "ALIVE" and m == "ALIVE" and s == "ALIVE":
+            st["agree"] += 1
+        else:
+            rec["kind"] = "corr+violation" if i != "ALIVE" else "corr"
+            if f is not None:
+                rec["note"] = "witness of known finding %s fails differently from what is recorded (%s)" % (f["id"], f["expect"])
+            st["corr_breaks"] += 1
+            r.corr_breaks.append(rec)
+            if i != "ALIVE":
+                st["violations"] += 1
+                r.violations.append(rec)
+    for f in r.findings:
+        fid = f.get("id")
+        if fid in hits:
+            r.known_hits[fid] = r.known_hits.get(fid, 0) + hits[fid]
+            r.known_lines.append("KNOWN-FINDING: property=C01 %s [%s] leg=c01.deep: %d of the %d replayed witnesses reproduce (%d listed; impl=%s spec=ALIVE)" %
+                                 (f["what"], fid, hits[fid], sum(1 for w in listed if listed[w] is f), len(f["witnesses"]), f["expect"]))
+        if fid in gone:
+            # not a violation: the listed crash does not happen on this code (repaired?); the entry is closed by hand
+            r.known_lines.append("FINDING-GONE: property=C01 [%s] leg=c01.deep: %d of the %d replayed witnesses are ALIVE on this code - if it carries "
+                                 "the repair (fixes/C01-nesting-limit.diff, fixes/C01-annotation-nesting-limit.diff) set the entry to fixed in known_findings/C01.json" %
+                                 (fid, gone[fid], sum(1 for w in listed if listed[w] is f)))
+    seen = {" ".join(row[0].split(" ")[:3]) for row in rows}
+    st["distinct"] = len(seen)
+    st["distinct_nontrivial"] = sum(1 for c in seen if DEEP.nontrivial(c))
+    st["wall_s"] = round(time.time() - t0, 1)
+    r.leg_stats.append(st)
+    for row in rows[:2] + rows[len(listed):len(listed) + 2]:
+        r.samples.append({"leg": "c01.deep", "case": DEEP.describe(row[0]), "impl": row[1][:100], "model": row[2][:100]})
+    r.deep_summary = {"listed_witnesses": len(listed), "reproduce": hits, "alive_now": gone}
+
+
 LEGS = [
     Leg("c01.parse", gen_parse, py_spec=lambda c: "ALIVE", spec_proj=alive, shrink=shrink_bytes, canon_impl=strip_locs,
         skip_model=lambda m: m.startswith("SKIP"), nontrivial=lambda c: len(c) > 8,
@@ -219,10 +342,11 @@ LEGS = [
 
 TRUSTED = vlib.TRUSTED_COMMON + [
     "leg c01.server is a robustness search over the real server (subprocess + watchdog), not a proof: the theorems cover the modelled cores only",
-    "Go runtime behaviour (stack limit, scheduler) is outside the model",
+    "Go runtime behaviour (stack limit, scheduler) is outside the model: leg c01.deep measures it on listed witnesses and a grid (child process, ulimit -v, watchdog)",
 ]
 
 
 def main(tier, seed):
-    return vlib.standard_main("C01", LEGS, tier, seed, trusted=TRUSTED, other_models={"c16.": "C16", "c15.": "C15"},
-                              assumptions=["handlers outside the modelled cores (hover label rendering, signature help, completion deep paths) have no theorem; they are exercised by leg c01.server only"])
+    return vlib.standard_main("C01", LEGS, tier, seed, trusted=TRUSTED, other_models={"c16.": "C16", "c15.": "C15"}, extra=deep_extra,
+                              assumptions=["nesting depth: the recursion of the parser and of the passes over the syntax tree follows the nesting of the input (C01_parse_depth_exceeds_nesting); inputs nested some hundred thousand levels deep exhaust the Go stack: open finding C01-deep-nesting, identified by the listed witnesses of leg c01.deep",
+                                           "handlers outside the modelled cores (hover label rendering, signature help, completion deep paths) have no theorem; they are exercised by leg c01.server only"])
